@@ -82,9 +82,6 @@ func init() {
 	register("C01", "Timestamps are unique and strictly increasing", func(c *Ctx) {
 		P := c.P
 		const tso = "server/tso"
-		fPhys := func() *types.Var { return P.Field(tso, "tsoObject", "physical") }
-		fLog := func() *types.Var { return P.Field(tso, "tsoObject", "logical") }
-
 		c.Group("C01/tso-lock", "every access to the in-memory TSO (physical, logical, updateTime) holds the TSO mutex, W for writes", func() {
 			lock := P.Field(tso, "tsoObject", "RWMutex")
 			n := 0
@@ -96,81 +93,7 @@ func init() {
 			}
 		})
 
-		c.Group("C01/monotone-write", "every write of the TSO's physical time is a reset to zero, or is dominated by 'new physical strictly after current', or by 'not before' plus 'logical strictly greater'; logical is zeroed/advanced together with it", func() {
-			phys, logi := fPhys(), fLog()
-			sub := F(P.Func("pkg/typeutil", "SubTSOPhysicalByWallClock"))
-			zero := P.obj("pkg/typeutil", "ZeroTime")
-			nW := 0
-			for name, accs := range P.writersOf(phys) {
-				_ = name
-				for _, a := range accs {
-					fn := a.Fn
-					for i, st := range storesToField(fn, phys) {
-						nW++
-						construct := fmt.Sprintf("write of physical in %s #%d", fnName(fn), i+1)
-						if isGlobalLoad(st.Val, zero) {
-							// reset: logical must be zeroed too, in the same critical section
-							ok := false
-							for _, ls := range storesToField(fn, logi) {
-								if z, isC := constInt(ls.Val); isC && z == 0 {
-									ok = true
-								}
-							}
-							c.Check(ok, "C01/monotone-write", construct, "a reset to ZeroTime also zeroes logical", P.instrPos(st), "no logical = 0 store in the same function")
-							continue
-						}
-						diff := callWithArgs(sub, same(st.Val), loadOfField(phys))
-						gGT := guardRel("Δphys>0", ">", diff, isConstInt(0))
-						gGE := guardRel("Δphys>=0", ">= >", diff, isConstInt(0))
-						gNE := guardRel("Δphys!=0", "!= >", diff, isConstInt(0))
-						// logical difference: (new logical) - load(logical) > 0
-						ldiff := func(v ssa.Value) bool {
-							b, ok := strip(v).(*ssa.BinOp)
-							return ok && b.Op == token.SUB && isLoadOf(b.Y, logi)
-						}
-						gLD := guardRel("Δlogical>0", ">", ldiff, isConstInt(0))
-						_, fails := requireAt(P, fn, 0, []Ev{gGT, gGE, gNE, gLD}, func(x ssa.Instruction) bool { return x == st }, func(h []bool) bool {
-							return h[0] || (h[1] && (h[2] || h[3]))
-						})
-						if len(fails) > 0 {
-							c.Viol("C01/monotone-write", construct, "dominated by Sub(new,current) > 0, or by >= 0 ∧ (≠ 0 ∨ new logical > current logical)", P.instrPos(st), fails[0].State+" via "+fails[0].Trace)
-						} else {
-							c.OK("C01/monotone-write", construct, "dominated by Sub(new,current) > 0, or by >= 0 ∧ (≠ 0 ∨ new logical > current logical)", P.instrPos(st))
-						}
-						// pairing: after the physical write, every exit has written logical
-						physW := &calledEv{name: "physical written", match: func(x ssa.Instruction) bool { return x == st }}
-						logW := &calledEv{name: "logical written after", match: func(x ssa.Instruction) bool { return isStoreToField(x, logi) }, reset: func(x ssa.Instruction) bool { return x == st }}
-						c.need("C01/logical-follows-physical", fn, "return", func(x ssa.Instruction) bool { _, ok := x.(*ssa.Return); return ok },
-							[]Ev{physW, logW}, func(h []bool) bool { return !h[0] || h[1] }, "a physical advance is always followed by a (re)write of logical before the lock is released")
-					}
-				}
-			}
-			if nW < 3 {
-				c.Undec("C01/monotone-write", "writes of physical", "at least 3 writes found (advance, user reset, zero reset)", "", fmt.Sprintf("found %d", nW))
-			}
-			// writes of logical: constant 0 (only after a physical write), an increment of itself, or the guarded user reset
-			for _, accs := range P.writersOf(logi) {
-				for _, a := range accs {
-					fn := a.Fn
-					for i, st := range storesToField(fn, logi) {
-						construct := fmt.Sprintf("write of logical in %s #%d", fnName(fn), i+1)
-						if z, isC := constInt(st.Val); isC && z == 0 {
-							physW := &calledEv{name: "physical written", match: func(x ssa.Instruction) bool { return isStoreToField(x, phys) }}
-							_, fails := requireAt(P, fn, 0, []Ev{physW}, func(x ssa.Instruction) bool { return x == st }, all)
-							c.Check(len(fails) == 0, "C01/logical-write", construct, "logical is zeroed only right after physical was written (advance or reset)", P.instrPos(st), "logical = 0 reachable without a physical write")
-							continue
-						}
-						if b, ok := strip(st.Val).(*ssa.BinOp); ok && b.Op == token.ADD && (isLoadOf(b.X, logi) || isLoadOf(b.Y, logi)) {
-							c.OK("C01/logical-write", construct, "logical advances by adding the requested count to itself", P.instrPos(st))
-							continue
-						}
-						// any other write must sit under the same guards as a physical write in the same function
-						ok := len(storesToField(fn, phys)) > 0
-						c.Check(ok, "C01/logical-write", construct, "another value is written only together with a guarded physical write", P.instrPos(st), "logical overwritten without a physical write in the same function")
-					}
-				}
-			}
-		})
+		c.Group("C01/monotone-write", "every write of the TSO's physical time is a reset to zero, or is dominated by 'new physical strictly after current', or by 'not before' plus 'logical strictly greater'; logical is zeroed/advanced together with it", func() { ruleMonotoneWrite(c) })
 
 		c.Group("C01/generate-range", "generateTSO advances the logical part by exactly the requested count and returns the value read after the advance", func() { ruleGenerateReturnsHighest(c) })
 		c.Group("C01/sync-above-window", "(shared with C02) a new leader starts at least the guard above the loaded window", func() { ruleSyncAboveWindow(c) })
@@ -575,7 +498,9 @@ func ruleGenerateReturnsHighest(c *Ctx) {
 		}
 		return adv.Block().Dominates(ins.Block())
 	}
-	before := func(v ssa.Value) bool { return isLoadOf(v, logical) && !after(v) && strip(v) != strip(adv.Val.(*ssa.BinOp).X) && strip(v) != strip(adv.Val.(*ssa.BinOp).Y) }
+	before := func(v ssa.Value) bool {
+		return isLoadOf(v, logical) && !after(v) && strip(v) != strip(adv.Val.(*ssa.BinOp).X) && strip(v) != strip(adv.Val.(*ssa.BinOp).Y)
+	}
 	k := 0
 	seenAlt := map[ssa.Value]bool{}
 	for _, b := range fn.Blocks {
@@ -639,4 +564,89 @@ func ruleGenerateReturnsHighest(c *Ctx) {
 		}
 	}
 	c.Check(okPhys && nPhys > 0, rule, "returned physical of "+fnName(fn), "read from the TSO in generateTSO itself while it holds the write lock under which the logical part is advanced", P.pos(fn.Pos()), "")
+}
+
+// ruleMonotoneWrite: (C01, shared with C05) every write of the in-memory
+// physical time is a reset to zero or is dominated by "strictly after the
+// current one" (or "not before" plus a larger logical part), measured with the
+// millisecond-truncating difference the timestamps are composed with.
+func ruleMonotoneWrite(c *Ctx) {
+	P := c.P
+	const tso = "server/tso"
+	rule := c.Prop + "/monotone-write"
+	fPhys := func() *types.Var { return P.Field(tso, "tsoObject", "physical") }
+	fLog := func() *types.Var { return P.Field(tso, "tsoObject", "logical") }
+	phys, logi := fPhys(), fLog()
+	sub := F(P.Func("pkg/typeutil", "SubTSOPhysicalByWallClock"))
+	zero := P.obj("pkg/typeutil", "ZeroTime")
+	nW := 0
+	for name, accs := range P.writersOf(phys) {
+		_ = name
+		for _, a := range accs {
+			fn := a.Fn
+			for i, st := range storesToField(fn, phys) {
+				nW++
+				construct := fmt.Sprintf("write of physical in %s #%d", fnName(fn), i+1)
+				if isGlobalLoad(st.Val, zero) {
+					// reset: logical must be zeroed too, in the same critical section
+					ok := false
+					for _, ls := range storesToField(fn, logi) {
+						if z, isC := constInt(ls.Val); isC && z == 0 {
+							ok = true
+						}
+					}
+					c.Check(ok, rule, construct, "a reset to ZeroTime also zeroes logical", P.instrPos(st), "no logical = 0 store in the same function")
+					continue
+				}
+				diff := callWithArgs(sub, same(st.Val), loadOfField(phys))
+				gGT := guardRel("Δphys>0", ">", diff, isConstInt(0))
+				gGE := guardRel("Δphys>=0", ">= >", diff, isConstInt(0))
+				gNE := guardRel("Δphys!=0", "!= >", diff, isConstInt(0))
+				// logical difference: (new logical) - load(logical) > 0
+				ldiff := func(v ssa.Value) bool {
+					b, ok := strip(v).(*ssa.BinOp)
+					return ok && b.Op == token.SUB && isLoadOf(b.Y, logi)
+				}
+				gLD := guardRel("Δlogical>0", ">", ldiff, isConstInt(0))
+				_, fails := requireAt(P, fn, 0, []Ev{gGT, gGE, gNE, gLD}, func(x ssa.Instruction) bool { return x == st }, func(h []bool) bool {
+					return h[0] || (h[1] && (h[2] || h[3]))
+				})
+				if len(fails) > 0 {
+					c.Viol(rule, construct, "dominated by Sub(new,current) > 0, or by >= 0 ∧ (≠ 0 ∨ new logical > current logical)", P.instrPos(st), fails[0].State+" via "+fails[0].Trace)
+				} else {
+					c.OK(rule, construct, "dominated by Sub(new,current) > 0, or by >= 0 ∧ (≠ 0 ∨ new logical > current logical)", P.instrPos(st))
+				}
+				// pairing: after the physical write, every exit has written logical
+				physW := &calledEv{name: "physical written", match: func(x ssa.Instruction) bool { return x == st }}
+				logW := &calledEv{name: "logical written after", match: func(x ssa.Instruction) bool { return isStoreToField(x, logi) }, reset: func(x ssa.Instruction) bool { return x == st }}
+				c.need(c.Prop+"/logical-follows-physical", fn, "return", func(x ssa.Instruction) bool { _, ok := x.(*ssa.Return); return ok },
+					[]Ev{physW, logW}, func(h []bool) bool { return !h[0] || h[1] }, "a physical advance is always followed by a (re)write of logical before the lock is released")
+			}
+		}
+	}
+	if nW < 3 {
+		c.Undec(rule, "writes of physical", "at least 3 writes found (advance, user reset, zero reset)", "", fmt.Sprintf("found %d", nW))
+	}
+	// writes of logical: constant 0 (only after a physical write), an increment of itself, or the guarded user reset
+	for _, accs := range P.writersOf(logi) {
+		for _, a := range accs {
+			fn := a.Fn
+			for i, st := range storesToField(fn, logi) {
+				construct := fmt.Sprintf("write of logical in %s #%d", fnName(fn), i+1)
+				if z, isC := constInt(st.Val); isC && z == 0 {
+					physW := &calledEv{name: "physical written", match: func(x ssa.Instruction) bool { return isStoreToField(x, phys) }}
+					_, fails := requireAt(P, fn, 0, []Ev{physW}, func(x ssa.Instruction) bool { return x == st }, all)
+					c.Check(len(fails) == 0, c.Prop+"/logical-write", construct, "logical is zeroed only right after physical was written (advance or reset)", P.instrPos(st), "logical = 0 reachable without a physical write")
+					continue
+				}
+				if b, ok := strip(st.Val).(*ssa.BinOp); ok && b.Op == token.ADD && (isLoadOf(b.X, logi) || isLoadOf(b.Y, logi)) {
+					c.OK(c.Prop+"/logical-write", construct, "logical advances by adding the requested count to itself", P.instrPos(st))
+					continue
+				}
+				// any other write must sit under the same guards as a physical write in the same function
+				ok := len(storesToField(fn, phys)) > 0
+				c.Check(ok, c.Prop+"/logical-write", construct, "another value is written only together with a guarded physical write", P.instrPos(st), "logical overwritten without a physical write in the same function")
+			}
+		}
+	}
 }
